@@ -212,6 +212,10 @@ func (a *asyncFifoRetryImpl) retry(ctx context.Context) (breakLoop bool) {
 			if errors.Is(err, storage.ErrUncertainResult) {
 				state = retryUnknownPut
 			}
+			// whether the rewrite failed or its own outcome is unknown, the original write is still
+			// unresolved: keep it queued and look at it again in the next tick (if the rewrite did
+			// land, the next look finds a newer revision and drops the entry as unnecessary)
+			return true
 		}
 	}
 
